@@ -82,3 +82,23 @@ def has_bits(T):
 
 def classify(e):
     return type(e).__name__
+
+
+def show(x):
+    """Text for a detail string that never forces a symbolic value."""
+    from vf import rt
+    if rt.is_sym(x, 3):
+        return "<symbolic>"
+    try:
+        return repr(x)
+    except BaseException:  # noqa: BLE001
+        return "<unprintable>"
+
+
+def generator_supported(T):
+    """Whether the source generator is expected to handle struct T itself (LEB128 members are not supported)."""
+    def leaf(FT):
+        while FT[0] == "arr":
+            FT = FT[1]
+        return FT
+    return T[0] == "struct" and all(leaf(f[1])[0] != "leb" for f in T[2])
